@@ -109,6 +109,11 @@ func runSearch[S any](t *vlib.T, b *base, sys vseq.System[S]) {
 	t.Count("states:"+name, int64(st.States))
 	t.Count("transitions:"+name, st.Transitions)
 	t.Count("modeldigest:"+name, int64(b.digest>>16))
+	// the same per build configuration, so that the configurations can be compared
+	cfgName := vlib.Env("VERIF_CONFIG", "default")
+	t.Count("states@"+cfgName+":"+name, int64(st.States))
+	t.Count("transitions@"+cfgName+":"+name, st.Transitions)
+	t.Count("modeldigest@"+cfgName+":"+name, int64(b.digest>>16))
 	t.Max("depth", int64(st.Depth))
 	t.Nontrivial()
 	outcome := "fixpoint"
